@@ -16,7 +16,7 @@
 From Coq Require Import List NArith Bool.
 From SK Require Import lib.Tok lib.LGraph lib.Mono lib.Reach model.C07_Model model.C07_MCCS
   proof.C07_Spec proof.C07_History proof.C07_Filters proof.C07_Main proof.C07_WL proof.C07_Relabel proof.C07_Final proof.C07_Extra proof.C07_Final2
-  proof.C07_Entry proof.C07_MCCS proof.C07_Sym proof.C07_Cache.
+  proof.C07_Entry proof.C07_MCCS proof.C07_Sym proof.C07_Cache proof.C07_More.
 Import ListNotations.
 
 (** the premises are satisfiable, and the instances the correspondence run evaluates ([run] = [run_from has_mono (monos_g true)])
@@ -228,6 +228,31 @@ Theorem C07_edit_keeps_inv :
 Proof. exact edit_keeps_inv. Qed.
 Print Assumptions C07_edit_keeps_inv.
 
+(** histories in which NEW graph objects appear ([HNew i k]: object i is replaced by a new object holding value k — derived from
+    another object of the history with copy() / subgraph().copy() / relabel_nodes / deepcopy and then edited, or built from scratch;
+    the old object's entries leave the weak table with it): the cache invariant survives whatever the new value is, and as long as no
+    object is edited in place EVERY engine, filtering or not, answers every query like the cache-free functions on the current values *)
+Theorem C07_new_objects :
+  forall vf2b enum gs0 es hs, no_edits hs ->
+  forall cur c, cache_inv cur c -> fst (run_hist vf2b enum gs0 cur es hs c) = hist_pure vf2b enum gs0 cur es hs.
+Proof. exact new_objects_harmless. Qed.
+Print Assumptions C07_new_objects.
+
+Theorem C07_new_object_keeps_inv :
+  forall gs i g' c, cache_inv gs c -> cache_inv (set_nth gs i g') (drop_obj i c).
+Proof. exact new_object_keeps_inv. Qed.
+Print Assumptions C07_new_object_keeps_inv.
+
+(** the general rule (it contains C07_edit_uncached and C07_new_objects, and is the exemption rule of the oracle): a history with
+    in-place edits AND new objects answers every query like the cache-free functions on the current values — for every engine — provided
+    each in-place edit hits an object that has no cache entry at that moment ([edits_uncached], proof/C07_Extra.v: the cache is threaded
+    through the history exactly as [run_hist] threads it) *)
+Theorem C07_safe_edits :
+  forall vf2b enum gs0 es hs cur c, cache_inv cur c -> edits_uncached vf2b enum gs0 cur es hs c ->
+    fst (run_hist vf2b enum gs0 cur es hs c) = hist_pure vf2b enum gs0 cur es hs.
+Proof. exact safe_edits_harmless. Qed.
+Print Assumptions C07_safe_edits.
+
 (** NOT a clause of the property (its histories contain no edits) but worth stating: for a FILTERING engine an in-place edit leaves
     stale histograms behind and an answer can differ from the cache-free one — the limitation the class documents
     (witness: C-O vs C-[O-] queried, the second object edited into C-O, queried again: False instead of True) *)
@@ -414,6 +439,24 @@ Theorem C07_argument_guards :
 Proof. exact argument_guards. Qed.
 Print Assumptions C07_argument_guards.
 
+(** (2, embeddings) whether get_mappings finds the pattern does not depend on the node numbering of the host or of the pattern *)
+Theorem C07_maps_relabel_invariant :
+  forall vf2b enum, vf2b_contract vf2b -> enum_contract enum ->
+  forall e r gs gs' hi pi c c', cache_inv gs c -> cache_inv gs' c' -> gwf (gnth gs hi) -> gwf (gnth gs pi) -> e_mm e <> Some 0%N ->
+    (gnth gs' hi = grelabel r (gnth gs hi) /\ inj_on r (node_ids (gnth gs hi)) /\ gnth gs' pi = gnth gs pi) \/
+    (gnth gs' pi = grelabel r (gnth gs pi) /\ inj_on r (node_ids (gnth gs pi)) /\ gnth gs' hi = gnth gs hi) ->
+    (fst (get_mappings vf2b enum e hi (gnth gs' hi) pi (gnth gs' pi) c') <> [] <->
+     fst (get_mappings vf2b enum e hi (gnth gs hi) pi (gnth gs pi) c) <> []).
+Proof. exact maps_relabel_invariant. Qed.
+Print Assumptions C07_maps_relabel_invariant.
+
+(** a non-empty get_mappings result implies that _pre_check passes on the same arguments (any cache states) *)
+Theorem C07_maps_implies_pre_check :
+  forall vf2b enum gs e hi pi c c', cache_inv gs c -> cache_inv gs c' -> gwf (gnth gs hi) -> gwf (gnth gs pi) ->
+    fst (get_mappings vf2b enum e hi (gnth gs hi) pi (gnth gs pi) c) <> [] -> fst (pre_check e hi (gnth gs hi) pi (gnth gs pi) c') = true.
+Proof. exact maps_implies_pre_check. Qed.
+Print Assumptions C07_maps_implies_pre_check.
+
 (** isomorphic is a preorder on graphs for every engine and all cache states: reflexive, and transitive (with C07_symmetric: an
     equivalence on graphs whose hydrogen counts are equal or absent) *)
 Theorem C07_iso_preorder :
@@ -438,6 +481,17 @@ Theorem C07_cache_keys :
                         nth_error (cache_trace vf2b enum gs es qs c) (S n) = Some k2 -> incl k1 k2).
 Proof. exact cache_keys_all. Qed.
 Print Assumptions C07_cache_keys.
+
+(** ... and exactly WHEN it is written: _pre_check touches the cache iff the engine filters, the two graphs have equally many nodes
+    and the host has at least the pattern's number of edges — then both (graph, node_attrs) entries are present afterwards; in every
+    other case the cache is returned unchanged *)
+Theorem C07_cache_writes :
+  forall e hi H pi P c,
+  (e_wl e = true /\ n_nodes H = n_nodes P /\ n_edges P <= n_edges H ->
+     In (hi, e_na e) (keys (snd (pre_check e hi H pi P c))) /\ In (pi, e_na e) (keys (snd (pre_check e hi H pi P c)))) /\
+  (~ (e_wl e = true /\ n_nodes H = n_nodes P /\ n_edges P <= n_edges H) -> snd (pre_check e hi H pi P c) = c).
+Proof. exact pre_check_writes. Qed.
+Print Assumptions C07_cache_writes.
 
 (** ---------------------------------------------------------------- round 5: the common-subgraph helpers of graph_morphism.py
     (outside the clauses of the property text; modelled, compared and proved because they are built from the same matcher calls)
